@@ -128,6 +128,10 @@ class Parser(Emitter):
             end_cell.col = start_col
             start_cell.col = end_col
 
+        # the corners may have been swapped above: make each label denote its (row, col) again
+        start_cell.label = to_label(start_cell.row, start_cell.col)
+        end_cell.label = to_label(end_cell.row, end_cell.col)
+
         result = {'value': None}  # get around 2.7 not having nonlocal
 
         def valsetter(new_value):
